@@ -30,12 +30,12 @@ type MetaPeer struct {
 }
 
 type MetaCase struct {
-	L        model.Layout `json:"layout"`
-	Peers    []MetaPeer   `json:"peers"`
-	MaxMeta  int          `json:"max_metadata_size"` // configured limit (0 = default)
-	Parallel int          `json:"parallel_metadata_downloads"`
-	BigInfo  bool         `json:"big_info"` // pad the info dictionary so that it spans several 16 KiB metadata pieces
-	MaxPieces int         `json:"max_pieces"` // configured piece-count limit (0 = default)
+	L         model.Layout `json:"layout"`
+	Peers     []MetaPeer   `json:"peers"`
+	MaxMeta   int          `json:"max_metadata_size"` // configured limit (0 = default)
+	Parallel  int          `json:"parallel_metadata_downloads"`
+	BigInfo   bool         `json:"big_info"`   // pad the info dictionary so that it spans several 16 KiB metadata pieces
+	MaxPieces int          `json:"max_pieces"` // configured piece-count limit (0 = default)
 }
 
 func genMeta(t *rapid.T) MetaCase {
@@ -49,7 +49,7 @@ func genMeta(t *rapid.T) MetaCase {
 	n := rapid.IntRange(1, 4).Draw(t, "npeers")
 	honest := false
 	for i := 0; i < n; i++ {
-		p := MetaPeer{Mode: rapid.SampledFrom([]string{"honest", "honest", "garbage", "garbage", "wrong-total", "short-piece", "long-piece", "dup", "unrequested", "swap-labels", "swap-labels", "reject", "silent", "close"}).Draw(t, "mode")}
+		p := MetaPeer{Mode: rapid.SampledFrom([]string{"honest", "honest", "garbage", "garbage", "wrong-total", "short-piece", "long-piece", "dup", "forge-after", "forge-after", "unrequested", "swap-labels", "swap-labels", "reject", "silent", "close"}).Draw(t, "mode")}
 		p.SizeKind = rapid.SampledFrom([]string{"true", "true", "true", "plus1", "minus1", "huge", "over-max", "wrap32", "zero"}).Draw(t, "size")
 		p.DelayMs = rapid.SampledFrom([]int{0, 0, 5, 40}).Draw(t, "delay")
 		p.ConnectMs = rapid.SampledFrom([]int{0, 0, 20, 100}).Draw(t, "connect")
